@@ -390,8 +390,14 @@ FWD_FIXED = [
 ]
 
 
+FWD_WATCH = ["fwd watch k=1 delay=150", "fwd watch k=2", "fwd create k=1", "fwd watch k=3 delay=80", "fwd update k=1", "fwd watch k=4 delay=200"]
+
+
 def fwd_cases(r, quick):
-    cases = [core.Case(SUITE, ["cfg init=%d" % INIT] + FWD_FIXED, {"part": "forward"})]
+    cases = [core.Case(SUITE, ["cfg init=%d" % INIT] + FWD_FIXED, {"part": "forward"}),
+             # a watch from "now" forwarded through the follower's proxy, the leader's stream handler starting late:
+             # Created must mean "subscribed at the leader" (C05 through the configuration C18 describes)
+             core.Case(SUITE, ["cfg init=%d" % INIT] + FWD_WATCH, {"part": "forward"})]
     for _ in range(4 if quick else 40):
         lines = ["cfg init=%d" % INIT]
         for _ in range(40):
@@ -413,6 +419,11 @@ def fwd_oracle(case):
         if t[0] != "fwd":
             continue
         where = "line %d: %s -> %s" % (i + 1, line, out)
+        if t[1] == "watch":
+            if o[:3] == ["fwd", "watch", "created"] and "delivered=0" in o:
+                return (where + ": the follower answered Created for a forwarded watch from `now`, the write issued after that was "
+                        "acknowledged by the leader and never delivered on the open stream", "forwarded-watch-created-before-subscribed")
+            continue
         f = opts_of(o[3:]) if len(o) == 6 else {}
         if len(o) != 6 or o[0] != "fwd" or o[1] != t[1] or not f.get("exec", "").isdigit() or f.get("applied") not in ("0", "1"):
             return (where + ": malformed answer", "malformed-answer")
@@ -643,7 +654,7 @@ def check_main(rep, tier, seed):
                           "begin and answer; the thorough tier runs every interleaving)" if quick
                           else " and of 2 reads + 2 commits", pack))
     rep.cov["role_table_rows"] = rows
-    fw = [out.split() for c in fcases for ln, out in zip(c.lines, c.impl) if ln.startswith("fwd ")]
+    fw = [out.split() for c in fcases for ln, out in zip(c.lines, c.impl) if ln.startswith("fwd ") and " exec=" in out]
     rep.cov["forwarded_txns"] = {"requests": len(fw), "answers": {a: sum(1 for o in fw if o[2] == a) for a in sorted({o[2] for o in fw})},
                                  "lost_answers": sum(1 for c in fcases for ln in c.lines if "lose=1" in ln),
                                  "max_leader_executions_per_request": max([int(opts_of(o[3:])["exec"]) for o in fw] or [0])}
